@@ -318,7 +318,7 @@ impl Check for C16 {
         if sc.net.cfg.limiter.is_some_and(|(_, size)| size == 0) {
             return RunReport::default();
         }
-        if n == 0 || sc.net.cfg.use_start || sc.net.stop_at_ns.is_some() || sc.net.cap_ns < sc.net.clients[n - 1].connect_at_ns + secs(60) || sc.net.cfg.timeout_ns < secs(10) {
+        if n == 0 || sc.net.cfg.use_start || sc.net.stop_at_ns.is_some() || sc.net.cap_ns < sc.net.clients[n - 1].connect_at_ns + secs(60) || sc.net.cfg.timeout_ns < secs(30) {
             return RunReport::default();
         }
         let v = &sc.net.clients[n - 1];
